@@ -82,3 +82,13 @@ def queries():
                     unwind=pl + 70, tier=tier, timeout=900 if tier == "thorough" else 300, backend="cadical",
                     desc="%s; every %d-byte record body (plaintext length %d) symbolic, keys/iv/seq/type/version symbolic; check_length for all size_t rlen" % (d, pl + over, pl)))
     return qs
+
+
+# ---- cross-included by the main session (C02.c, engine reaction): the C06 inductive step of br_ssl_engine_recvrec_ack
+# decides that a rejected record closes the engine with BR_ERR_BAD_MAC, that records are decrypted only when complete,
+# and that with encryption active a header is accepted only if the record layer admits its length (no unauthenticated
+# empty record).  A seeded change there (C02c) must fail C02 as well.
+_c02_queries = queries
+def queries():
+    import C06
+    return _c02_queries() + [q for q in C06.queries() if q.name.startswith("step-recvrec_ack-") and q.tier == "quick"]
